@@ -8,6 +8,7 @@ import (
 	"io"
 	"net"
 	"sync"
+	"sync/atomic"
 	"time"
 
 	netty "github.com/go-netty/go-netty"
@@ -68,6 +69,8 @@ func (c *closeOnReadArg) HandleRead(ctx netty.InboundContext, message netty.Mess
 	ctx.Close(c.err)
 }
 
+var c11CtxKind int32 // rotates the context flavour handed to CtxWrite1/CtxWritev
+
 func c11Call(ch netty.Channel, entry int, buf []byte) (err error) {
 	defer func() {
 		if r := recover(); r != nil {
@@ -75,6 +78,16 @@ func c11Call(ch netty.Channel, entry int, buf []byte) (err error) {
 		}
 	}()
 	ctx := context.Background()
+	switch atomic.AddInt32(&c11CtxKind, 1) % 3 {
+	case 1:
+		var cancel context.CancelFunc
+		ctx, cancel = context.WithTimeout(ctx, time.Hour) // a context that carries a deadline
+		defer cancel()
+	case 2:
+		var cancel context.CancelFunc
+		ctx, cancel = context.WithCancel(ctx)
+		defer cancel()
+	}
 	switch entry {
 	case 0:
 		_, err = ch.Write1(buf)
@@ -168,6 +181,13 @@ func c11Grid(c *core.Ctx, id string, m mon.Mode, q int, closer, argName string, 
 	defer cancel()
 	holder := netty.NewChannelHolder(4)
 	opts := mon.RigOpts{Mode: m, Queue: q, Ctx: parent, QuietTail: true, Handlers: []netty.Handler{holder}}
+	lenient := salt%2 == 1
+	if lenient {
+		// a transport that does not itself refuse writes after Close: the channel must
+		opts.Tr = mon.NewRecTransport()
+		opts.Tr.AcceptAfterClose = true
+		c.Count("grid_cases_with_lenient_transport", 1)
+	}
 	if closer == "read-loop-handler" {
 		opts.NoPark = true
 		opts.Handlers = append(opts.Handlers, &closeOnReadArg{arg})
